@@ -167,6 +167,8 @@ class Analyzer:
                             self.site_ids.add(e.i)
                             r = Res(e, "heap", {obj}, {"free"})
                             r.maybe_null = True
+                            if self.fresh_out[name][ai]:
+                                r.statusvar = self._status_dest(e)      # handed over only when the callee reports success
                             state = self._kill_alias(state, obj, e, path, quiet=True) + [r]
             if name in self.all_release:
                 state = self.release(e, state, path)
@@ -616,7 +618,23 @@ def fresh_out_summaries(P):
                     stores.setdefault(pn, []).append((ok, r.cv == 0))
         for pn, lst in stores.items():
             if pn in names and all(ok for ok, _z in lst) and any(not z for _ok, z in lst):
-                summ.setdefault(f.name, set()).add(names.index(pn))
+                # does a failure return follow a store?  (then the caller owns the block even on failure)
+                only_on_success = True
+                if f.cfg is not None and ("status" in (f.ret or "") or (f.ret or "").strip() == "int"):
+                    from .flow import find_path_avoiding
+                    w = f.cfg.where()
+                    for n in f.body.walk():
+                        if n.k == "BinaryOperator" and n.op == "=" and n.c[0].strip().k == "UnaryOperator" and n.c[0].strip().op == "*" \
+                                and n.c[0].strip().c[0].strip_casts().k == "DeclRefExpr" and n.c[0].strip().c[0].strip_casts().name == pn \
+                                and n.c[1].strip_casts().cv != 0 and n.i in w:
+                            b_, i_ = w[n.i]
+                            if find_path_avoiding(f.cfg, lambda e: False,
+                                                  lambda e: e.k == "ReturnStmt" and e.c and e.c[0] is not None and e.c[0].cv != 0,
+                                                  None, (b_, i_ + 1)) is not None:
+                                only_on_success = False
+                else:
+                    only_on_success = False
+                summ.setdefault(f.name, {})[names.index(pn)] = only_on_success
     _fo_cache[id(P)] = summ
     return summ
 
